@@ -14,7 +14,7 @@ CHECKS = {
          "Crash points of each generated history are enumerated exhaustively (every mmap store / set_len / sync / punch boundary) and each yields the sync-only image, three adversarial writeback images and r random page-version subsets, all opened with the real Database::open; histories and random subsets are sampled.",
          "Trusted: the crash model stated in the property (4 KiB page atomicity, length changes durable in order), the shadow disk (self-checked against the real files after every history), the expectation tracker (flushed/untouched/overwritten-in-place bookkeeping).", "6 C05"),
  "C12": ("fault_enumeration", "deterministic simulation: every hole-punch event checked against durable+current metadata images, crash at every event boundary inside compact",
-         "compact() is inserted into every history; each punch event is compared, at the moment it is issued, with the regions described by the durable and by the current metadata image; every crash point inside/after compact goes through the C05 oracle; byte identity, placement and logical file length are compared around every compact. The racing-writer half (schedules) is covered by the C10/C11 thread world when built.",
+         "compact() is inserted into every history; each punch event is compared, at the moment it is issued, with the regions described by the durable and by the current metadata image; every crash point inside/after compact goes through the C05 oracle; byte identity, placement and logical file length are compared around every compact. Odd runs are the racing-writer half: compact() inline or as a deferred background task under the controlled scheduler against writers appending to / truncating their regions, with the I/O tap on so that the punch check runs on every punch of every schedule.",
          "Trusted: as C05; RegionMetadata::from_bytes for decoding the metadata images.", "6 C12"),
  "C03": ("exploration", "deterministic simulation: seeded vecdb histories, all formats differentially vs a Vec<Option<T>> reference model, restarts at any point",
          "Every step of ~10k (quick) / 300k (thorough) seeded histories over up to six vectors of one element type is followed by a full comparison (length, every element bit-exactly, deleted slots, stamp) with the model; write()/flush() positions differ per vector; re-import with and without database reopen.",
@@ -31,6 +31,15 @@ CHECKS = {
  "C20": ("exploration", "deterministic simulation: access tap on every mmap dereference / file read during the read battery, compared with region bounds",
          "The access tap records every dereference site while the read battery runs; each access must lie inside [start,start+len) of one of the vector's own regions at that instant; states include after truncation, after rollback, and clones.",
          "Trusted: tap placement (Reader::unchecked_read, read_from_ptr impls, native-layout slices, zerocopy refs, both I/O sources' refills).", "6 C20"),
+ "C09": ("exploration", "deterministic simulation: writer + readers under the controlled scheduler (one real thread at a time, seeded interleavings at lock/pause-point granularity)",
+         "One writer appends a known sequence in batches around the page capacity while 1-2 readers observe the length through read-only clones and read below it (range, point, cursor, fold; mmap and file-I/O back-ends); every interleaving decision comes from the seeded scheduler; prefix property, monotone lengths, no panic, no deadlock.",
+         "Trusted: controller lock model (writer-preferring RwLock, Mutex, Condvar); sequential consistency; pause points around the data copy, region length update and shared length publication.", "6 C09"),
+ "C10": ("exploration", "deterministic simulation: per-thread isolation + reader provenance under the controlled scheduler, extent invariant at quiescence",
+         "2-4 threads work on their own regions/vectors against per-thread models compared after every op; at quiescence the C02 invariant and all models are checked; a thread may hold a Reader on another thread's append-only region across relocation, flush and reuse.",
+         "Trusted: as C09; attributable content bytes (a hash collision can only hide a violation).", "6 C10"),
+ "C11": ("exploration", "deterministic simulation: op pairs/triples from the public API under the controlled scheduler with a writer-preferring lock model; deadlock = no enabled thread",
+         "Programs of 1-3 ops per thread from a ~20-op catalogue over prepared allocator states, run under six scheduling strategies incl. PCT and directed preemption after pause points, discrete-event timers with optional early firing; verdict is the controller's blocked-forever detection.",
+         "Trusted: lock model faithful to parking_lot (readers blocked by a queued writer; recursive read behind a queued writer blocks); every lock of rawdb/vecdb except exit/ and CachedVec goes through the shim (self-check: the real try_lock must succeed whenever the model grants).", "6 C11"),
  "C13": ("exploration", "deterministic simulation: refused requests inside seeded histories, model unchanged + continuation",
          "Refused requests are issued at random points of rawdb histories (even runs) and vecdb histories (odd runs); the call must fail, the state must equal the unchanged model at once and through the continuation.",
          "Trusted: reference model; the refused-request catalogue (see DESIGN 6 C13).", "6 C13"),
